@@ -112,6 +112,8 @@ def norm(x):
         return float(x)
     if isinstance(x, (complex, np.complexfloating)):
         return [float(x.real), float(x.imag)]
+    if isinstance(x, slice):
+        return {"__slice__": [x.start, x.stop, x.step]}
     if isinstance(x, np.ndarray):
         return _arr(x)
     if isinstance(x, Molecule):
